@@ -50,7 +50,14 @@ class Renderer:
         if k == 'cmp':
             return ast.Compare(left=self.expr(c[2]), ops=[CMPS[c[1]]()], comparators=[self.expr(c[3])])
         if k in ('and', 'or'):
-            return ast.BoolOp(op=ast.And() if k == 'and' else ast.Or(), values=[self.cond(c[1]), self.cond(c[2])])
+            # a right-nested run of the same operator is one Python chain:  x and y and z
+            vals = [self.cond(c[1])]
+            rest = c[2]
+            while rest[0] == k:
+                vals.append(self.cond(rest[1]))
+                rest = rest[2]
+            vals.append(self.cond(rest))
+            return ast.BoolOp(op=ast.And() if k == 'and' else ast.Or(), values=vals)
         if k == 'not':
             return ast.UnaryOp(op=ast.Not(), operand=self.cond(c[1]))
         if k == 'truth':
@@ -86,10 +93,15 @@ class Renderer:
                     cur = n2
                 cur.orelse = self.stmts(s[4])
                 out.append(node)
-            elif k == 'match':
+            elif k in ('match', 'matchc'):
                 cases = [ast.match_case(pattern=ast.MatchValue(value=ast.Constant(value=c)), guard=None, body=self.stmts(body) or [ast.Pass()])
                          for c, body in s[2]]
-                cases.append(ast.match_case(pattern=ast.MatchAs(pattern=None, name=None), guard=None, body=self.stmts(s[3]) or [ast.Pass()]))
+                if k == 'match':
+                    cases.append(ast.match_case(pattern=ast.MatchAs(pattern=None, name=None), guard=None, body=self.stmts(s[3]) or [ast.Pass()]))
+                else:
+                    # capture pattern: the subject value is bound to a name the body reads
+                    grab = ast.Assign(targets=[ast.Name(id='t', ctx=ast.Store())], value=ast.Name(id='other', ctx=ast.Load()))
+                    cases.append(ast.match_case(pattern=ast.MatchAs(pattern=None, name='other'), guard=None, body=[grab] + self.stmts(s[3])))
                 out.append(ast.Match(subject=self.expr(s[1]), cases=cases))
             else:
                 raise ValueError(s)
@@ -263,7 +275,7 @@ class Interp:
                             break
                     if not done:
                         self.run(s[4], env)
-            elif t == 'match':
+            elif t in ('match', 'matchc'):
                 v = self.expr(s[1], env, INTW)
                 hit = False
                 for c, body in s[2]:
@@ -272,6 +284,8 @@ class Interp:
                         hit = True
                         break
                 if not hit:
+                    if t == 'matchc':
+                        env['t'] = v
                     self.run(s[3], env)
 
     def cycle_in_domain(self, prog, a, b):
@@ -308,7 +322,7 @@ def productions(prog):
                     e(c2, 'elif')
                     st(body, 'elif')
                 st(s[4], 'else')
-            elif s[0] == 'match':
+            elif s[0] in ('match', 'matchc'):
                 e(s[1], tag)
                 for c, body in s[2]:
                     st(body, 'case')
